@@ -220,6 +220,9 @@ def run_unit(unit, rlimit=30, seed=0, keep=True, extra_args=()):
             res.status = 'error'
             res.errors.append('failure outside extracted functions (lemma library / unit text): %s\n%s' % (msg, rendered[:1500]))
             continue
+        if fn is not None and getattr(fn, 'skipped_hints', None) and kind in ('assert', 'invariant') :
+            res.undecided.append('%s: %s after a proof hint was dropped (anchor absent): %s' % (fn.key, kind, msg))
+            continue
         safety = kind in ('overflow', 'termination', 'panic') or (kind == 'precondition')
         props = set()
         if clause is not None:
